@@ -8,7 +8,10 @@ package main
 // a typed error.
 
 import (
+	"errors"
 	"fmt"
+
+	"golang.org/x/text/transform"
 
 	"golang.org/x/text/encoding"
 	"golang.org/x/text/encoding/charmap"
@@ -38,8 +41,27 @@ func charsetValues() []interface{} {
 	for _, n := range charsetNames {
 		v = append(v, n)
 	}
-	v = append(v, encoding.Encoding(unicode.UTF8), encoding.Encoding(japanese.ShiftJIS), encoding.Encoding(charmap.ISO8859_1), encoding.Encoding(unicode.UTF16(unicode.BigEndian, unicode.IgnoreBOM)), encoding.Encoding(encoding.Nop), encoding.Encoding(encoding.Replacement))
+	v = append(v, encoding.Encoding(unicode.UTF8), encoding.Encoding(japanese.ShiftJIS), encoding.Encoding(charmap.ISO8859_1), encoding.Encoding(unicode.UTF16(unicode.BigEndian, unicode.IgnoreBOM)), encoding.Encoding(encoding.Nop), encoding.Encoding(encoding.Replacement),
+		// encodings whose DECODER can fail or consumes a signature
+		encoding.Encoding(unicode.UTF16(unicode.BigEndian, unicode.ExpectBOM)), encoding.Encoding(unicode.UTF16(unicode.LittleEndian, unicode.ExpectBOM)),
+		encoding.Encoding(unicode.UTF16(unicode.BigEndian, unicode.UseBOM)), encoding.Encoding(unicode.UTF8BOM), encoding.Encoding(failingEncoding{}),
+		nil, 7, true, []string{"UTF-8"})
 	return v
+}
+
+// failingEncoding: a well-typed encoding.Encoding whose decoder reports an error on every input.
+type failingEncoding struct{}
+
+type failingTransformer struct{ transform.NopResetter }
+
+func (failingTransformer) Transform(dst, src []byte, atEOF bool) (int, int, error) {
+	return 0, 0, errors.New("verif: this decoder always fails")
+}
+func (failingEncoding) NewDecoder() *encoding.Decoder {
+	return &encoding.Decoder{Transformer: failingTransformer{}}
+}
+func (failingEncoding) NewEncoder() *encoding.Encoder {
+	return &encoding.Encoder{Transformer: failingTransformer{}}
 }
 
 func runHintValues() {
@@ -52,8 +74,15 @@ func runHintValues() {
 			imgs = append(imgs, m)
 		}
 	}
+	// ECI-designated symbols too: the hint must not matter there, whatever its value
+	for _, cs := range []struct{ charset, text string }{{"ISO-8859-7", "αβγ δεζ"}, {"Shift_JIS", "abc金魚"}, {"UTF-8", "é漢 x"}, {"windows-1251", "Привет"}} {
+		m, err := qrw.Encode(cs.text, gozxing.BarcodeFormat_QR_CODE, 0, 0, map[gozxing.EncodeHintType]interface{}{gozxing.EncodeHintType_CHARACTER_SET: cs.charset})
+		if err == nil {
+			imgs = append(imgs, m)
+		}
+	}
 	vals := charsetValues()
-	chk.Range(fmt.Sprintf("hint values: decode-side CHARACTER_SET over %d values (registered names and aliases, %d names of the IANA index that x/text may not implement, malformed names, encoding.Encoding values) x 3 QR symbols with an undesignated byte segment (image level, pure and located) and the byte-segment parser on 4 byte strings", len(vals), 44), len(vals),
+	chk.Range(fmt.Sprintf("hint values: decode-side CHARACTER_SET over %d values (registered names and aliases, %d names of the IANA index that x/text may not implement, malformed names, encoding.Encoding values) x 3 QR symbols with an undesignated byte segment and 4 ECI-designated ones (image level, pure and located) and the byte-segment parser on 4 byte strings", len(vals), 44), len(vals),
 		func(i int) string { return fmt.Sprintf("CHARACTER_SET=%v", vals[i]) },
 		func(l *mc.Local, i int) {
 			v := vals[i]
